@@ -41,6 +41,8 @@ def generate(rng, tier):
         na = rng.choice(["none", "some", "first", "first", "last", "all"])
         hostile = 0.3
         vals = gen.gen_values(rng, kind, n, na, rng.choice(["few", "distinct"]), hostile)
+        if kind == "str" and rng.random() < 0.2:
+            vals = [v if v is None or rng.random() < 0.5 else rng.choice(gen.STR_NULLISH) for v in vals]
         if kind == "datetime" and target == "pandas":
             vals = [None if v is None else rng.choice(gen.DATETIMES) for v in vals]
         if kind == "date" and target == "pandas":
